@@ -1,7 +1,15 @@
 (* OptionsSrcOk.v — the finite evaluation behind C19_options_are_source, kept apart from the
    definitions it evaluates (OptionsSrc.v) so that those still compile — and the diagnosis can still
    run them — when the source no longer passes. *)
-From Scrapli Require Import OptionsSrc.
+From Scrapli Require Import DecideLang GeneratedSkel OptionsSrc.
+From Coq Require Import String List.
+Open Scope string_scope.
 
 Lemma options_src_ok_true : options_src_ok = true.
+Proof. vm_compute. reflexivity. Qed.
+
+(* every test the translated code makes is one the environment above was written for (an unknown
+   equality would otherwise evaluate to false without notice) *)
+Definition options_known : list string := "switch transportType" :: "switch s" :: "err == nil" :: "ok" :: nil.
+Lemma options_tests_known : tests_known (flat_map (fun e => snd e) GeneratedSkel.option_code) options_known = true.
 Proof. vm_compute. reflexivity. Qed.
